@@ -5,7 +5,10 @@ use crate::Sodg;
 use anyhow::{Context, Result};
 use bincode::{deserialize, serialize};
 use log::trace;
+#[cfg(not(feature = "verif"))]
 use std::fs;
+#[cfg(feature = "verif")]
+use crate::verif::fs;
 use std::path::Path;
 use std::time::Instant;
 
